@@ -379,6 +379,30 @@ impl AtomicCell<bool> {
 }
 impl core::fmt::Debug for AtomicCell<bool> { #[verifier::external_body] fn fmt(&self, f: &mut core::fmt::Formatter<'_>) -> core::fmt::Result { unimplemented!() } }
 
+/// R-arc for values: Arc::new(x) is x; cloning an Arc yields the same object (an equal value)
+pub fn verif_arc_new<T>(t: T) -> (r: T) ensures r == t { t }
+#[verifier::external_body]
+pub fn verif_arc_clone<T>(t: &T) -> (r: T) ensures r == *t { unimplemented!() }
+/// tokio::sync::broadcast (the store only creates the channel and hands a Sender to its background thread)
+pub mod broadcast {
+    #[verifier::external_body]
+    #[verifier::reject_recursive_types(T)]
+    pub struct Sender<T> { t: core::marker::PhantomData<T> }
+    #[verifier::external_body]
+    #[verifier::reject_recursive_types(T)]
+    pub struct Receiver<T> { t: core::marker::PhantomData<T> }
+    #[verifier::external_body]
+    pub fn channel<T>(n: usize) -> (Sender<T>, Receiver<T>) { unimplemented!() }
+    impl<T> Clone for Sender<T> { #[verifier::external_body] fn clone(&self) -> Self { unimplemented!() } }
+    impl<T> core::fmt::Debug for Sender<T> { #[verifier::external_body] fn fmt(&self, f: &mut core::fmt::Formatter<'_>) -> core::fmt::Result { unimplemented!() } }
+}
+/// the background thread (periodic merge / sync through a clone of the Handle): spawning it has no effect of its own on the World;
+/// what it does later are Handle operations like any other in the history (no interleaving is explored: TARC / C04)
+pub mod verif_thread {
+    #[verifier::external_body]
+    pub fn spawn_background<H, S>(h: H, s: S) -> super::io::Result<()> { unimplemented!() }
+}
+
 /// the map a storage engine denotes in a given World (ghost; the engine-specific definition is given next to the engine)
 pub trait KvView { spec fn kv_map(&self, w: &World) -> Map<Bytes, Bytes>; }
 pub open spec fn lookup(m: Map<Bytes, Bytes>, key: Bytes) -> Option<Bytes> { if m.contains_key(key) { Some(m[key]) } else { None::<Bytes> } }
@@ -399,6 +423,8 @@ impl<'a, T> core::ops::DerefMut for MutexGuard<'a, T> {
     { &mut *self.v }
 }
 impl<T: SharedInv> Mutex<T> {
+    #[verifier::external_body]
+    pub fn new(t: T) -> (m: Self) ensures m@ == t { unimplemented!() }
     /// the protected value (sequential reading: whoever holds the lock sees the value the previous holder left)
     pub uninterp spec fn view(&self) -> T;
     /// parking_lot::Mutex::lock: blocks until the lock is free, never poisons.  R-interior: `&self` is read as `&mut self`; the
@@ -416,6 +442,16 @@ impl<T> core::fmt::Debug for Mutex<T> { #[verifier::external_body] fn fmt(&self,
 #[verifier::reject_recursive_types(T)]
 pub struct ArrayQueue<T> { t: core::marker::PhantomData<T> }
 impl<T: SharedInv> ArrayQueue<T> {
+    pub uninterp spec fn cap(&self) -> nat;
+    /// crossbeam ArrayQueue::new panics on a zero capacity; the new (empty) pool becomes THE pool of the World
+    #[verifier::external_body]
+    pub fn verif_new(cap: usize, Tracked(w): Tracked<&mut World>) -> (r: Self)
+        requires cap > 0,   //@[C02.open.pool_capacity_positive]
+        ensures r.cap() == cap, final(w).pool_cap == cap, final(w).pool_free == 0,
+                final(w).data == old(w).data, final(w).hint == old(w).hint, final(w).ever == old(w).ever,
+    { unimplemented!() }
+    #[verifier::external_body]
+    pub fn capacity(&self) -> (r: usize) ensures r == self.cap() { unimplemented!() }
     /// `t` is one of the objects this pool was filled with (and hands out again)
     pub uninterp spec fn issued(&self, t: T) -> bool;
     #[verifier::external_body]
